@@ -1,2 +1,202 @@
-(* C02 — placeholder while the machinery is being built; replaced by the theorems. *)
+(* C02 — Replicated data follows the restricted-function-exchange rules.
+   Property theorems only; proofs are in Proofs/UpdateBasics.v, UpdateRefine.v,
+   UpdateStep.v, UpdateRun.v.  The model is Model/Update.v (the generic update engine
+   model/update.go + collection_operations.go, with
+   patches/fix-C02-selector-update-all-matches.diff) under Model/FunctionStore.v
+   (spine/function_data.go with patches/fix-C11-functiondata-update-on-copy.diff, and the
+   per-type UpdateList wiring with patches/fix-C02-identification-updatelist-returns-data.diff),
+   tied to the code by the correspondence harness cmd/c02 for every registered list type;
+   the property is the monitor Spec/UpdateSpec.v (the same extracted monitor judges the
+   implementation's traces); the schemas and the UpdateList wiring are regenerated from
+   /repo into Gen/GenSchemas.v, Gen/GenUpdateWiring.v, Gen/GenSchemaNames.v on every run. *)
+From Coq Require Import String List ZArith NArith Bool Sorting.Sorted.
 From Verif Require Import Base.Prelude Model.Schema Model.Update Model.FunctionStore Spec.UpdateSpec.
+From Verif Require Import Proofs.UpdateBasics Proofs.UpdateRefine Proofs.UpdateStep Proofs.UpdateRun.
+From Verif Require Import Gen.GenSchemas Gen.GenUpdateWiring Gen.GenSchemaNames.
+
+(* Every history of Init / Update (any API family: local, reply, notify; full, partial,
+   selector, delete shapes and their combinations; persisted or not; failing, panicking) /
+   Snapshot: at every step the data the store returns is the fold of the rules over the
+   applied updates (same_map), holds one item per identifier, is ordered by numeric
+   identifier, and re-applying the previous simple update changed nothing — for every
+   clause the scope does not excuse.  Excused: everything after an ill-formed update
+   list or a remote write (C04's subject) until the next well-formed full update, and
+   every type whose schema is not well-formed (none with an identifier on this tree). *)
+Theorem C02_trace_accepted_partial : forall ops,
+  accepted (judge minit sinit (snd (run init ops))) = true.
+Proof. exact run_accepted. Qed.
+Print Assumptions C02_trace_accepted_partial.
+
+(* ---- the unscoped statement is false of the faithful model, as it is of the code ---- *)
+
+Definition it3 (a b c : option N) : item := [a; b; c].
+Definition full_upd (l : list item) : op := Update false true false {| u_new := l; u_fp := None; u_fd := None |}.
+Definition part_upd (l : list item) : op :=
+  Update false true false {| u_new := l; u_fp := Some {| f_sel := None; f_elems := None |}; u_fd := None |}.
+
+Definition violates (c : Z) (ops : list op) : bool :=
+  existsb (fun ve => memZ c (fst ve)) (judge minit sinit (snd (run init ops))).
+
+(* type 1 = billConstraintsListData: three numeric fields, identifier = field 0 *)
+Definition c02_witness_verbatim : list op :=
+  [Init 1 false; full_upd [it3 (Some 3) (Some 0) None; it3 (Some 1) None None; it3 (Some 2) None None; it3 (Some 1) (Some 7) None]]%N.
+Definition c02_witness_repeated : list op :=
+  [Init 1 false; full_upd [it3 (Some 1) (Some 0) None];
+   part_upd [it3 (Some 5) (Some 1) None; it3 (Some 5) None (Some 2)];
+   part_upd [it3 (Some 5) (Some 1) None; it3 (Some 5) None (Some 2)]]%N.
+
+Theorem C02_full_refuted : exists ops, strictly_accepted (judge minit sinit (snd (run init ops))) = false.
+Proof. exists c02_witness_verbatim. vm_compute. reflexivity. Qed.
+Print Assumptions C02_full_refuted.
+
+(* a full update is stored verbatim: [3,1,2,1] keeps both items 1 and stays unordered *)
+Theorem C02_unique_refuted : exists ops, violates CL_UNIQUE ops = true.
+Proof. exists c02_witness_verbatim. vm_compute. reflexivity. Qed.
+Theorem C02_order_refuted : exists ops, violates CL_ORDER ops = true.
+Proof. exists c02_witness_verbatim. vm_compute. reflexivity. Qed.
+(* a partial update repeating a new identifier appends both copies; the store is then not
+   the fold of the rules, and the second application rewrites both copies *)
+Theorem C02_fold_refuted : exists ops, violates CL_FOLD ops = true.
+Proof. exists c02_witness_repeated. vm_compute. reflexivity. Qed.
+Theorem C02_idempotence_refuted : exists ops, violates CL_IDEM ops = true.
+Proof. exists c02_witness_repeated. vm_compute. reflexivity. Qed.
+Print Assumptions C02_idempotence_refuted.
+
+(* ---- the explicit statements a reader expects ---- *)
+
+(* One update.  For a well-formed schema, a store that is the abstract store [m] read as
+   a list (complete, pairwise distinct, ordered identifiers) and a well-formed local
+   update: the engine reports success and the resulting list is again such a store, for
+   the abstract store given by the rules (delete filter, then selector / identifier-less /
+   merge-by-identifier). *)
+Theorem C02_refines_rules : forall sch l m u d ok,
+  wf_schema sch = true -> Inv sch l m -> wf_update sch false u = true ->
+  update_list sch false l (u_new u) (u_fp u) (u_fd u) = Ok (d, ok) ->
+  ok = true /\ Inv sch d (spec_apply sch false u m).
+Proof. intros sch l m u d ok Hwf. exact (update_refines sch Hwf l m u d ok). Qed.
+Print Assumptions C02_refines_rules.
+
+(* Histories: the fold of the engine over any list of well-formed updates, from the empty
+   store, is the fold of the rules. *)
+Fixpoint run_updates (sch : schema) (l : list item) (us : list upd) : option (list item) :=
+  match us with
+  | [] => Some l
+  | u :: r => match update_list sch false l (u_new u) (u_fp u) (u_fd u) with
+              | Ok (d, _) => run_updates sch d r
+              | Panic => None
+              end
+  end.
+
+Definition fold_spec (sch : schema) (us : list upd) (m : amap) : amap :=
+  fold_left (fun m u => spec_apply sch false u m) us m.
+
+Lemma run_updates_fold sch (Hwf : wf_schema sch = true) : forall us l m d,
+  Inv sch l m -> Forall (fun u => wf_update sch false u = true) us ->
+  run_updates sch l us = Some d -> Inv sch d (fold_spec sch us m).
+Proof.
+  induction us as [|u r IH]; intros l m d HI Hus H.
+  - cbn in H. inversion H. subst. exact HI.
+  - inversion Hus as [|? ? Hu Hr]. subst. cbn [run_updates] in H.
+    destruct (update_list sch false l (u_new u) (u_fp u) (u_fd u)) as [[d0 ok]|] eqn:E; [|discriminate].
+    destruct (update_refines sch Hwf l m u d0 ok HI Hu E) as [_ HI0].
+    exact (IH d0 _ d HI0 Hr H).
+Qed.
+
+Theorem C02_fold : forall sch us d,
+  wf_schema sch = true -> Forall (fun u => wf_update sch false u = true) us ->
+  run_updates sch [] us = Some d ->
+  same_map sch d (fold_spec sch us []) = true /\
+  NoDup (keys_of sch d) /\ Forall (fun x => exists k, key_of sch x = Some k) d /\
+  Sorted (le_items sch) d.
+Proof.
+  intros sch us d Hwf Hus H. pose proof (run_updates_fold sch Hwf us [] [] d (Inv_nil sch) Hus H) as HI.
+  split; [apply (Inv_same_map sch); exact HI|]. destruct HI as [[_ [Hc Hnd]] [Ho _]].
+  split; [exact Hnd|]. split; [exact Hc|]. apply ordered_Sorted. exact Ho.
+Qed.
+Print Assumptions C02_fold.
+
+(* Shape after one update, stated on its own. *)
+Theorem C02_shape : forall sch l m u d ok,
+  wf_schema sch = true -> Inv sch l m -> wf_update sch false u = true ->
+  update_list sch false l (u_new u) (u_fp u) (u_fd u) = Ok (d, ok) ->
+  NoDup (keys_of sch d) /\ Sorted (le_items sch) d.
+Proof.
+  intros sch l m u d ok Hwf HI Hu H. destruct (update_refines sch Hwf l m u d ok HI Hu H) as [_ [[_ [_ Hnd]] [Ho _]]].
+  split; [exact Hnd | apply ordered_Sorted; exact Ho].
+Qed.
+Print Assumptions C02_shape.
+
+(* Applying the same update a second time changes nothing ([simple]: not a delete filter
+   combined with data — there the rules themselves are not idempotent: delete item 1,
+   then add item 1 with field a; the second application deletes what the first added and
+   adds it again, which coincides, but "delete the items with a=1, set a:=1 on item 2"
+   does not). *)
+Theorem C02_idempotent : forall sch l m u d ok d' ok',
+  wf_schema sch = true -> Inv sch l m -> wf_update sch false u = true -> simple u = true ->
+  update_list sch false l (u_new u) (u_fp u) (u_fd u) = Ok (d, ok) ->
+  update_list sch false d (u_new u) (u_fp u) (u_fd u) = Ok (d', ok') ->
+  d' = d.
+Proof. intros sch l m u d ok d' ok' Hwf. exact (update_idempotent sch Hwf l m u d ok d' ok'). Qed.
+Print Assumptions C02_idempotent.
+
+(* A full update: the list becomes the data; the shape clauses hold iff the list itself
+   is well-formed and ordered (which is why the scope asks for it). *)
+Theorem C02_full_update : forall sch l,
+  wf_schema sch = true -> wf_items sch l = true -> ordered sch l = true -> Inv sch l (of_list sch l).
+Proof. intros sch l Hwf Hi Ho. apply (Inv_of_list sch); [apply (wf_items_lwf sch); exact Hi | exact Ho]. Qed.
+Print Assumptions C02_full_update.
+
+(* ---- every registered list type: the generated tables ---- *)
+
+Open Scope string_scope.
+
+(* the per-type UpdateList method delegates to the generic engine with its own list field
+   as existing data, reads the same field of the asserted argument, assigns the result to
+   that field under `success && persist` only, and returns the result *)
+Definition wired_ok (w : wiring) : bool :=
+  String.eqb (w_recv w) (w_asserted w) && String.eqb (w_read w) (w_existing w) &&
+  String.eqb (w_existing w) (w_assigned w) && String.eqb (w_returned w) "data" && w_guard w && w_generic w.
+
+(* every registered list type has such a method for its list field *)
+Definition registered_wired (n : string * string * string * string * list string) : bool :=
+  let '(_, lt, lf, _, _) := n in
+  existsb (fun w => String.eqb (w_recv w) lt && String.eqb (w_read w) lf) all_wirings.
+
+Theorem C02_all_types :
+  forallb (fun s => wf_schema s || Nat.eqb (length (s_keys s)) 0) all_schemas = true /\
+  forallb wired_ok all_wirings = true /\
+  forallb registered_wired schema_go_names = true /\
+  length schema_go_names = length all_schemas.
+Proof. vm_compute. repeat split; reflexivity. Qed.
+Print Assumptions C02_all_types.
+
+Close Scope string_scope.
+
+Theorem C02_all_types_in : forall s, In s all_schemas -> s_keys s <> [] -> wf_schema s = true.
+Proof.
+  intros s Hin Hk. destruct C02_all_types as [H _]. rewrite forallb_forall in H. specialize (H s Hin).
+  apply orb_true_iff in H. destruct H as [H|H]; [exact H|]. apply Nat.eqb_eq in H. destruct (s_keys s); [contradiction | discriminate].
+Qed.
+Print Assumptions C02_all_types_in.
+
+(* ---- non-vacuity: a history of all shapes, in scope at every step (nothing excused),
+   strictly accepted, with the expected data ---- *)
+Definition sel1 (v : N) : option flt := Some {| f_sel := Some [Some v]; f_elems := None |}.
+Example C02_nonvacuous :
+  let ops := [Init 1 false;
+              full_upd [it3 (Some 1) (Some 10) None; it3 (Some 3) None (Some 30)];                    (* full *)
+              part_upd [it3 (Some 2) (Some 20) None; it3 (Some 3) (Some 31) None];                   (* merge by identifier *)
+              part_upd [it3 (Some 2) (Some 20) None; it3 (Some 3) (Some 31) None];                   (* again: no change *)
+              part_upd [it3 None None (Some 5)];                                                     (* no identifier: all items *)
+              Update false true false {| u_new := [it3 None (Some 9) None]; u_fp := sel1 2; u_fd := None |};   (* selector *)
+              Update false true false {| u_new := []; u_fp := None;
+                                         u_fd := Some {| f_sel := Some [Some 3]; f_elems := Some [false; true; false] |} |}; (* delete fields *)
+              Update false true false {| u_new := [it3 (Some 4) None None]; u_fp := Some {| f_sel := None; f_elems := None |};
+                                         u_fd := sel1 1 |};                                          (* delete item + merge *)
+              Snapshot]%N in
+  let tr := snd (run init ops) in
+  strictly_accepted (judge minit sinit tr) = true /\
+  forallb (fun ve => match snd ve with [] => true | _ => false end) (judge minit sinit tr) = true /\
+  store (fst (run init ops)) =
+    Some [it3 (Some 2) (Some 9) (Some 5); it3 (Some 3) None (Some 5); it3 (Some 4) None None]%N.
+Proof. vm_compute. repeat split; reflexivity. Qed.
